@@ -340,8 +340,12 @@ def check_range(chk, repo):
         chk.functions.add(base + ".__iter__")
         rng = [n for n in ast.walk(f) if isinstance(n, ast.Call) and isinstance(n.func, ast.Name) and n.func.id == "range"]
         cons = base + ".__iter__"
+        # reversed(range(a, b)) with unit step enumerates the same steps in the opposite order
+        flips = [n for n in ast.walk(f) if isinstance(n, ast.Call) and isinstance(n.func, ast.Name) and n.func.id == "reversed"
+                 and len(n.args) == 1 and rng and n.args[0] is rng[0] and len(rng[0].args) <= 2]
+        flipped = len(flips) == 1
         if len(rng) != 1 or any(isinstance(n, ast.Call) and isinstance(n.func, ast.Name) and n.func.id in ("reversed", "sorted")
-                                for n in ast.walk(f)):
+                                and n not in flips for n in ast.walk(f)):
             chk.decide("C18.RANGE", cons, None, "iteration is not a single range(...)", rel=rel, node=f)
             continue
         args = [attr_lin(a) for a in rng[0].args]
@@ -359,11 +363,13 @@ def check_range(chk, repo):
             lo, hi, is_desc = args[0], args[1], False       # [a, b)
         else:
             lo, hi, is_desc = args[1] + ONE, args[0] + ONE, True   # a, a-1, ..., b+1
+        if flipped:
+            is_desc = not is_desc
         d1, d2 = lo - n0, hi - n1
         ok = d1.is_const() and d2.is_const() and d1.c == 0 and d2.c == 0 and is_desc == desc
         definite = d1.is_const() and d2.is_const()
         chk.decide("C18.RANGE", cons, True if ok else (False if definite else None),
-                   f"{ast.unparse(rng[0])} enumerates [{lo}, {hi}) {'descending' if is_desc else 'ascending'}; "
+                   f"{'reversed(' if flipped else ''}{ast.unparse(rng[0])}{')' if flipped else ''} enumerates [{lo}, {hi}) {'descending' if is_desc else 'ascending'}; "
                    f"required [n0, n1) {'descending' if desc else 'ascending'}", rel=rel, node=f)
 
 
